@@ -3,6 +3,7 @@ package sidx
 import (
 	"context"
 	"fmt"
+	"math"
 	"os"
 	"sort"
 	"sync"
@@ -12,6 +13,7 @@ import (
 
 	"github.com/apache/skywalking-banyandb/api/common"
 	modelv1 "github.com/apache/skywalking-banyandb/api/proto/banyandb/model/v1"
+	snapshotpkg "github.com/apache/skywalking-banyandb/banyand/internal/snapshot"
 	"github.com/apache/skywalking-banyandb/banyand/protector"
 	"github.com/apache/skywalking-banyandb/pkg/fs"
 	"github.com/apache/skywalking-banyandb/pkg/index"
@@ -39,10 +41,21 @@ type xOp struct {
 	Max   *int64  `json:"max,omitempty"`
 	Desc  bool    `json:"desc,omitempty"`
 	Batch int     `json:"batch,omitempty"`
+	Slot  int     `json:"slot,omitempty"`
 }
 
 type xCase struct {
 	Ops []xOp `json:"ops"`
+	// Split: every publication is prepared and committed in two steps through the snapshot transition
+	// interface (as the trace engine does) with a full scan in between; pin / unpin operations hold a snapshot.
+	Split bool `json:"split,omitempty"`
+}
+
+type xPin struct {
+	snap  *Snapshot
+	model []xElem
+	parts map[uint64]string // part id -> directory ("" for a memory part)
+	at    int
 }
 
 var sidxLogOnce sync.Once
@@ -57,6 +70,8 @@ type xEnv struct {
 	x      *verifkit.Ctx
 	stats  struct {
 		flushes, merges, queries        int
+		splitWindows                    int
+		pinAcross                       bool
 		multiPart, rangeCut, afterMerge bool
 	}
 }
@@ -236,8 +251,50 @@ func runSidx(x *verifkit.Ctx, c xCase) (*xEnv, error) {
 		allSids = append(allSids, s)
 	}
 	sort.Ints(allSids)
+	impl, _ := s.(*sidx)
+	pins := map[int]*xPin{}
+	publications := 0
+	// publish applies a prepared transition: immediately, or - in split mode - after a full scan that must still see the state before it
+	publish := func(i int, what string, prepare func(cur *Snapshot) *Snapshot) error {
+		publications++
+		if !c.Split {
+			tr := snapshotpkg.NewTransition[*Snapshot](impl, prepare)
+			tr.Commit()
+			tr.Release()
+			return nil
+		}
+		tr := snapshotpkg.NewTransition[*Snapshot](impl, prepare)
+		for _, q := range []xOp{{Kind: "query"}, {Kind: "query", Desc: true}} {
+			if len(allSids) == 0 {
+				break
+			}
+			if err := e.query(q, allSids); err != nil {
+				tr.Commit()
+				tr.Release()
+				return fmt.Errorf("between preparation and commit of the %s of op %d: %v", what, i, err)
+			}
+		}
+		if err := e.scanAll("between preparation and commit of the "+what, e.model); err != nil {
+			tr.Commit()
+			tr.Release()
+			return err
+		}
+		tr.Commit()
+		tr.Release()
+		e.stats.splitWindows++
+		return nil
+	}
+	defer func() {
+		for _, p := range pins {
+			p.snap.decRef()
+		}
+	}()
 	full := func(i int) error {
-		for _, q := range []xOp{{Kind: "query"}, {Kind: "query", Desc: true, Batch: 3}} {
+		qs := []xOp{{Kind: "query"}, {Kind: "query", Desc: true, Batch: 3}}
+		if c.Split {
+			qs = []xOp{{Kind: "query"}, {Kind: "query", Desc: true}}
+		}
+		for _, q := range qs {
 			if len(allSids) == 0 {
 				break
 			}
@@ -263,7 +320,13 @@ func runSidx(x *verifkit.Ctx, c xCase) (*xEnv, error) {
 			}
 			id := e.nextID
 			e.nextID++
-			s.IntroduceMemPart(id, mp)
+			if c.Split {
+				if err := publish(i, "memory part", impl.PrepareMemPart(id, mp)); err != nil {
+					return e, err
+				}
+			} else {
+				s.IntroduceMemPart(id, mp)
+			}
 			e.mem = append(e.mem, id)
 			e.model = append(e.model, op.Elems...)
 		case "flush":
@@ -279,7 +342,13 @@ func runSidx(x *verifkit.Ctx, c xCase) (*xEnv, error) {
 				return e, fmt.Errorf("op %d flush: %v", i, err)
 			}
 			if intro != nil {
-				s.IntroduceFlushed(intro)
+				if c.Split {
+					if err := publish(i, "flush", impl.PrepareFlushed(intro)); err != nil {
+						return e, err
+					}
+				} else {
+					s.IntroduceFlushed(intro)
+				}
 				intro.Release()
 			}
 			e.files = append(e.files, e.mem...)
@@ -311,8 +380,11 @@ func runSidx(x *verifkit.Ctx, c xCase) (*xEnv, error) {
 			if err := full(i); err != nil {
 				return e, fmt.Errorf("between merge computation and publication: %v", err)
 			}
-			release := s.IntroduceMerged(intro)
-			if release != nil {
+			if c.Split {
+				if err := publish(i, "merge", impl.PrepareMerged(intro)); err != nil {
+					return e, err
+				}
+			} else if release := s.IntroduceMerged(intro); release != nil {
 				release()
 			}
 			var kept []uint64
@@ -326,6 +398,39 @@ func runSidx(x *verifkit.Ctx, c xCase) (*xEnv, error) {
 		case "query":
 			if err := e.query(op, allSids); err != nil {
 				return e, fmt.Errorf("query op %d: %v", i, err)
+			}
+			continue
+		case "pin":
+			if pins[op.Slot] != nil || impl == nil {
+				continue
+			}
+			snap := impl.currentSnapshot()
+			if snap == nil {
+				continue
+			}
+			pin := &xPin{snap: snap, model: append([]xElem(nil), e.model...), parts: map[uint64]string{}, at: publications}
+			for _, pw := range snap.parts {
+				dir := ""
+				if pw.mp == nil {
+					dir = pw.p.path
+				}
+				pin.parts[pw.ID()] = dir
+			}
+			pins[op.Slot] = pin
+			continue
+		case "unpin":
+			pin := pins[op.Slot]
+			if pin == nil {
+				continue
+			}
+			delete(pins, op.Slot)
+			err := e.checkPinned(pin, fmt.Sprintf("snapshot pinned before op %d's predecessor publications (%d publications ago)", i, publications-pin.at))
+			pin.snap.decRef()
+			if err != nil {
+				return e, err
+			}
+			if publications > pin.at {
+				e.stats.pinAcross = true
 			}
 			continue
 		}
@@ -437,3 +542,156 @@ func sidxSpec(property string) verifkit.Spec[xCase] {
 
 func TestVerifC09Sidx(t *testing.T) { verifkit.Run(t, sidxSpec("C09")) }
 func TestVerifC03Sidx(t *testing.T) { verifkit.Run(t, sidxSpec("C03")) }
+
+// ---------------------------------------------------------------------------------------------
+// C05 (secondary index): a reader evaluates against one snapshot - the one current when it
+// started - whatever the introducer prepares or publishes meanwhile.
+// ---------------------------------------------------------------------------------------------
+
+// scanParts reads every entry of the given snapshot through the real part selection and part scan of ScanQuery.
+func (e *xEnv) scanParts(snap *Snapshot) ([]xElem, []uint64, error) {
+	impl := e.s.(*sidx)
+	req := ScanQueryRequest{}
+	parts := selectPartsForScan(snap, math.MinInt64, math.MaxInt64, nil, nil)
+	var results []*QueryResponse
+	cur := &QueryResponse{}
+	var ids []uint64
+	for _, pw := range parts {
+		ids = append(ids, pw.ID())
+		var err error
+		if cur, err = impl.scanPart(context.Background(), pw, req, math.MinInt64, math.MaxInt64, &results, cur, 1000); err != nil {
+			return nil, ids, err
+		}
+	}
+	if cur.Len() > 0 {
+		results = append(results, cur)
+	}
+	var got []xElem
+	for _, r := range results {
+		for i := range r.Keys {
+			var d int
+			if _, err := fmt.Sscanf(string(r.Data[i]), "d%d", &d); err != nil {
+				return nil, ids, fmt.Errorf("unknown payload %q", r.Data[i])
+			}
+			got = append(got, xElem{S: int(r.SIDs[i]), K: r.Keys[i], D: d})
+		}
+	}
+	return got, ids, nil
+}
+
+func sameElems(got, want []xElem) error {
+	wm := map[xElem]int{}
+	for _, w := range want {
+		wm[w]++
+	}
+	for _, g := range got {
+		if wm[g] == 0 {
+			return fmt.Errorf("entry %+v is served but not part of that state (or served twice); %d served, %d expected", g, len(got), len(want))
+		}
+		wm[g]--
+	}
+	for w, n := range wm {
+		if n > 0 {
+			return fmt.Errorf("entry %+v is missing; %d served, %d expected", w, len(got), len(want))
+		}
+	}
+	return nil
+}
+
+// scanAll runs the public ScanQuery (current snapshot) and compares it with the given state.
+func (e *xEnv) scanAll(what string, want []xElem) error {
+	resps, err := e.s.ScanQuery(context.Background(), ScanQueryRequest{})
+	if err != nil {
+		return fmt.Errorf("%s: ScanQuery failed: %v", what, err)
+	}
+	var got []xElem
+	for _, r := range resps {
+		for i := range r.Keys {
+			var d int
+			if _, serr := fmt.Sscanf(string(r.Data[i]), "d%d", &d); serr != nil {
+				return fmt.Errorf("%s: unknown payload %q", what, r.Data[i])
+			}
+			got = append(got, xElem{S: int(r.SIDs[i]), K: r.Keys[i], D: d})
+		}
+	}
+	if err := sameElems(got, want); err != nil {
+		return fmt.Errorf("%s: ScanQuery: %v", what, err)
+	}
+	return nil
+}
+
+func (e *xEnv) checkPinned(pin *xPin, what string) error {
+	// the part selection of both query paths still covers every part of the pinned snapshot
+	got, ids, err := e.scanParts(pin.snap)
+	if err != nil {
+		return fmt.Errorf("%s: scanning the pinned snapshot failed: %v", what, err)
+	}
+	if len(ids) != len(pin.parts) {
+		return fmt.Errorf("%s: the scan selects the parts %v of a snapshot that holds %d parts %v", what, ids, len(pin.parts), pin.parts)
+	}
+	if n := len(selectPartsForQuery(pin.snap, math.MinInt64, math.MaxInt64, nil, nil)); n != len(pin.parts) {
+		return fmt.Errorf("%s: the ordered query selects %d parts of a snapshot that holds %d parts", what, n, len(pin.parts))
+	}
+	if err := sameElems(got, pin.model); err != nil {
+		return fmt.Errorf("%s: %v", what, err)
+	}
+	// files of replaced parts stay until the last reader of a snapshot containing them has finished
+	for id, dir := range pin.parts {
+		if dir == "" {
+			continue
+		}
+		if _, serr := os.Stat(dir); serr != nil {
+			return fmt.Errorf("%s: the directory of part %d of the pinned snapshot was deleted while the snapshot is still held: %v", what, id, serr)
+		}
+	}
+	return nil
+}
+
+func TestVerifC05Sidx(t *testing.T) {
+	verifkit.Run(t, verifkit.Spec[xCase]{
+		Property: "C05", Unit: "sidx_split",
+		Rule: "sidx histories (1..6 write batches over 3 series, flushes, merges of arbitrary subsets of file parts) in which every publication - memory part, " +
+			"flush, merge - is prepared and committed in two steps through the snapshot transition interface, exactly as the trace introducer does, with ordered " +
+			"queries and a scan BETWEEN the two steps, and in which up to 3 readers pin the current snapshot and evaluate it any number of publications later " +
+			"(part selection of the ordered and the scan path plus the real part scan); oracle: a reader between preparation and commit sees exactly the state " +
+			"before the publication (never the inputs and the merged part together, never neither), a pinned reader sees exactly the state at its pin, the part " +
+			"directories of a pinned snapshot exist until it is released; non-trivial = a reader inside a merge window or pinned across a merge",
+		Gen: func(t *rapid.T, _ *verifkit.KnownSet) xCase {
+			c := genSidxCase(t)
+			c.Split = true
+			// drop budgeted queries (their ordering is another property's recorded finding) and add pins
+			var ops []xOp
+			for _, op := range c.Ops {
+				if op.Kind == "query" {
+					op.Batch = 0
+				}
+				if rapid.IntRange(0, 3).Draw(t, "pin") == 0 {
+					ops = append(ops, xOp{Kind: "pin", Slot: rapid.IntRange(1, 3).Draw(t, "slot")})
+				}
+				ops = append(ops, op)
+				if rapid.IntRange(0, 4).Draw(t, "unpin") == 0 {
+					ops = append(ops, xOp{Kind: "unpin", Slot: rapid.IntRange(1, 3).Draw(t, "uslot")})
+				}
+			}
+			for slot := 1; slot <= 3; slot++ {
+				ops = append(ops, xOp{Kind: "unpin", Slot: slot})
+			}
+			c.Ops = ops
+			return c
+		},
+		Check: func(x *verifkit.Ctx, c xCase) error {
+			e, err := runSidx(x, c)
+			if err != nil {
+				return err
+			}
+			x.LabelIf(e.stats.merges > 0, "merge window")
+			x.LabelIf(e.stats.pinAcross, "reader pinned across a publication")
+			x.LabelIf(e.stats.splitWindows > 0, "reader between preparation and commit")
+			if e.stats.merges > 0 || e.stats.pinAcross {
+				x.NonTrivial()
+			}
+			return nil
+		},
+		MinLabelFrac: map[string]float64{"merge window": 0.3, "reader pinned across a publication": 0.3},
+	})
+}
